@@ -28,7 +28,7 @@ NT_FLOOR = 0.4
 
 RHO_U = ["g/cm3", "kg/m3", "g/l", "kg/l", "lb/ft3"]
 N_U = ["cm-3", "m-3", "l-1", "mm-3", "pm-3", "nm-3"]      # 1e21 cm-3 = 1e-9 pm-3: tiny magnitudes in the given unit
-V_U = ["l", "ml", "cm3", "m3", "gal"]
+V_U = ["l", "ml", "cm3", "m3", "gal", "nm3", "um3"]
 DA_G = R.UNITS["Da"].mag / R.UNITS["g"].mag
 
 
@@ -71,6 +71,10 @@ def matter_case(draw):
     else:
         val = draw(pos) * 1e21               # cm-3
     vol = draw(st.one_of(st.none(), pos))    # litres
+    # dilute gases and nanometre volumes: only a few (or less than one) formula units in the volume
+    val *= draw(st.sampled_from([1, 1, 1, 1, 1e-24, 1e-20, 1e-12, 1e3]))
+    if vol is not None:
+        vol *= draw(st.sampled_from([1, 1, 1, 1e-24, 1e-21, 1e-12, 1e3]))
     return {"kind": kind, "natural": nat, "obj": obj, "given": given, "value": val,
             "unit1": draw(st.sampled_from(units)), "unit2": draw(st.sampled_from(units)),
             "volume": vol, "vunit1": draw(st.sampled_from(V_U)), "vunit2": draw(st.sampled_from(V_U)),
